@@ -7,7 +7,7 @@ ENGINE = {'name': 'tls',
  'check': 'check',
  'imports': ['From Coq.Strings Require Import Byte.', 'From L4.model Require Import GoBase TlsHello.'],
  'n_quick': 1200,
- 'n_thorough': 12000,
+ 'n_thorough': 8000,
  'shard': 100,
  'timeout': 900,
  'serves': ['C07'],
@@ -17,10 +17,13 @@ ENGINE = {'name': 'tls',
          'curve preferences, session tickets on/off, TLS1.2 and TLS1.3 resumption from a real prior handshake; entropy-derived fields are replaced by '
          'PRNG bytes of the same length; one third is kept as written, the rest gets 1-3 byte-level mutations crypto/tls accepts (extension reorder, '
          'GREASE, unknown extensions, padding, arbitrary SNI/ALPN/versions/suites/groups/sigalgs contents, extra name types, no/empty extension block, '
-         'legacy versions, record versions) or a mutation it rejects (truncation, duplicates, trailing dot, empty names/protocols, odd vectors, '
-         'pre_shared_key not last, trailing bytes, short vectors); every hello is given to a crypto/tls server (GetConfigForClient), to '
+         'legacy versions, record versions, cookie/early_data/ticket/key_share/pre_shared_key/psk modes/status_request/renegotiation_info contents, '
+         'browser-like layout: GREASE extension first, permuted extensions with compress_certificate/ALPS/ECH-GREASE/record_size_limit, GREASE + '
+         'padding last, GREASE in suites/groups/versions/key shares; unknown extensions directly around server_name/ALPN/supported_versions) or a mutation it rejects (truncation, duplicates, trailing dot, empty names/protocols, odd vectors, '
+         'pre_shared_key not last, trailing bytes, short vectors, malformed PSK/key_share/status_request/renegotiation_info, non-empty SCT/early_data); every hello is given to a crypto/tls server (GetConfigForClient), to '
          'parseRawClientHello and MatchTLS.Match, and to the Coq parser; every proper prefix of 25 records (sampled prefixes of 35 more) and all '
-         '255 other record types go through MatchTLS.Match; a case is non-trivial when the hello carries server_name, ALPN or supported_versions; '
+         '255 other record types go through MatchTLS.Match; every sixth hello is additionally split into two handshake records at a generated '
+         'point (handshake header, after the session id, near the end, anywhere) and given to the server and the matcher; a case is non-trivial when the hello carries server_name, ALPN or supported_versions; '
          'distinct = distinct (bytes, answer) terms',
  'trusted_base': ['crypto/tls (Go 1.23 standard library) as the reference server and as the client that produces the hellos',
                   'the harness re-serialiser for mutated hellos (checked to reproduce every captured record byte for byte before mutation)',
@@ -30,10 +33,12 @@ ENGINE = {'name': 'tls',
               'modules/l4tls/matcher.go: MatchTLS.Match framing (record type, 16-bit length, exact reads), placeholders l4.tls.server_name and '
               'l4.tls.version, conjunction of handshake sub-matchers',
               'modules/l4tls/alpn_matcher.go: MatchALPN.Match for configured values without placeholders',
-              'not modelled: crypto/tls itself (agreement is differential), caddytls sub-matchers other than alpn, Caddyfile parsing (C15), '
-              'FillTLSClientConfig'],
+              'not modelled: crypto/tls itself (agreement is differential), caddytls sub-matchers other than alpn, Caddyfile parsing (C15); '
+              'FillTLSClientConfig and the replacer rendering of {l4.tls.server_name}|{l4.tls.version} are compared by the oracle only'],
  'assumptions': ['the parse_encode theorem is about hellos that are well-formed per RFC 8446/6066/7301 (wf_hello: lengths fit their fields, '
                  'no duplicate extension types, pre_shared_key last, host_name without trailing dot); what crypto/tls does with other hellos is '
                  'only compared when its server accepts them',
                  'MatchALPN: configured values contain no placeholders (repl.ReplaceAll is the identity on them)',
-                 'a ClientHello fits one TLS record (crypto/tls clients never fragment it; the matcher reads exactly one record)']}
+                 'C07_match_record_partial / C07_alpn_routing / C07_parse_encode are about a ClientHello carried in ONE TLS record (what crypto/tls clients write); for a '
+                 'hello fragmented across records the property is refuted (C07_fragmented_hello_refuted, recorded finding '
+                 'C07:fragmented-hello:*)']}
